@@ -30,4 +30,7 @@ def runRepliesUseFixedWidth : Bool := true
 /-- Packetizer.read_message: no recursion, no loop — one packet per call, none skipped -/
 def readMessageDeliversEveryPacket : Bool := true
 
+/-- Transport._parse_kex_init scans the whole kex name list for the pseudo-algorithm names -/
+def markerScanCoversWholeList : Bool := true
+
 end PV.Generated.C12
